@@ -5,6 +5,7 @@ from __future__ import annotations
 import collections
 import dataclasses
 import enum
+import types
 import itertools
 import typing
 from typing import Annotated, Any, Final, Literal, NewType, Optional
@@ -12,9 +13,9 @@ from typing import Annotated, Any, Final, Literal, NewType, Optional
 import attrs
 
 try:  # TypedDict with NotRequired
-    from typing import NotRequired, TypedDict
+    from typing import NotRequired, Required, TypedDict
 except ImportError:  # pragma: no cover
-    from typing_extensions import NotRequired, TypedDict
+    from typing_extensions import NotRequired, Required, TypedDict
 
 _uid = itertools.count()
 
@@ -58,6 +59,21 @@ def leaf_val(o):
     raise ValueError(o)
 
 
+_injected = []
+
+
+def _ident(v):
+    return v
+
+
+def _mentions(t, ci):
+    if isinstance(t, (list, tuple)):
+        if len(t) == 2 and t[0] in ("cls", "td") and t[1] == ci:
+            return True
+        return any(_mentions(x, ci) for x in t)
+    return False
+
+
 class Realised:
     def __init__(self, world, kw_only_seed=None):
         self.world = world
@@ -67,6 +83,7 @@ class Realised:
         self._cls_index = {}
         self._enum_index = {}
         self._ty_cache = {}
+        self._building = None
         for ei, members in enumerate(world["enums"]):
             e = enum.Enum(f"E{ei}", {f"M{mi}": leaf_val(v) for mi, v in enumerate(members)})
             self.enums.append(e)
@@ -87,14 +104,39 @@ class Realised:
         return ("fac", (lambda v=v: self.val(v)))
 
     def _make_class(self, ci, c):
+        self._building = ci
+        self._building_style = c.get("recursive")
+        try:
+            cl = self._make_class2(ci, c)
+        finally:
+            self._building = None
+        if c.get("recursive") == "name":
+            # forward references by name are resolved in the namespace of the defining module
+            cl.__module__ = __name__
+            globals()[cl.__name__] = cl
+            _injected.append(cl.__name__)
+            while len(_injected) > 400:
+                globals().pop(_injected.pop(0), None)
+        return cl
+
+    def _make_class2(self, ci, c):
         name = f"K{self.uid}_{ci}"
         kind = c["kind"]
         if kind == "td":
-            ann = {}
-            for f in c["fields"]:
-                t = self.ty(f["ty"]) if f["ty"] is not None else Any
-                ann[f["name"]] = t if f.get("required", True) else NotRequired[t]
-            return TypedDict(name, ann)
+            # the same abstract TypedDict is spelled in one of the three ways Python offers, chosen deterministically:
+            # total + NotRequired[...], total=False + Required[...], or a total=False subclass of a total base
+            fs = [(f["name"], self.ty(f["ty"]) if f["ty"] is not None else Any, f.get("required", True)) for f in c["fields"]]
+            style = (self.uid + ci) % 3
+            reqs = [r for _, _, r in fs]
+            if style == 2 and (sorted(reqs, reverse=True) != reqs or all(reqs) or not any(reqs)):
+                style = 0  # inheritance keeps declaration order only when required keys come first
+            if style == 0:
+                return TypedDict(name, {n: (t if r else NotRequired[t]) for n, t, r in fs})
+            if style == 1:
+                return TypedDict(name, {n: (Required[t] if r else t) for n, t, r in fs}, total=False)
+            base = TypedDict(name + "B", {n: t for n, t, r in fs if r})
+            return types.new_class(name, (base,), {"total": False},
+                                   lambda ns: ns.update({"__annotations__": {n: t for n, t, r in fs if not r}}))
         if kind == "attrs":
             flds = {}
             for f in c["fields"]:
@@ -111,6 +153,8 @@ class Realised:
                     kw["kw_only"] = True
                 if f["ty"] is not None:
                     kw["type"] = self.ty(f["ty"])
+                if f.get("idconv"):
+                    kw["converter"] = _ident
                 flds[f["name"]] = attrs.field(**kw)
             return attrs.make_class(name, flds, frozen=c["frozen"], slots=c.get("slots", True))
         if kind == "dc":
@@ -134,6 +178,10 @@ class Realised:
 
     # ------------------------------------------------------------------ types
     def ty(self, t):
+        if self._building is not None and _mentions(t, self._building):
+            if self._building_style == "name":
+                return self._ty_src(t)  # the whole annotation as a string, as a user would write a forward reference
+            return self._ty(t)  # contains typing.Self for the class under construction: never cached
         key = repr(t)
         if key in self._ty_cache:
             return self._ty_cache[key]
@@ -186,8 +234,26 @@ class Realised:
         if k == "alias":
             return typing.TypeAliasType(f"TA{self.uid}_{len(self._ty_cache)}", self.ty(t[1]))
         if k == "cls" or k == "td":
+            if t[1] == self._building:
+                return typing.Self
             return self.classes[t[1]]
         raise ValueError(t)
+
+    def _ty_src(self, t):
+        """Python source of a (recursive) annotation; evaluated later in this module's namespace"""
+        if isinstance(t, str):
+            return {"any": "typing.Any"}.get(t, t)
+        k = t[0]
+        if k in ("cls", "td"):
+            return f"K{self.uid}_{t[1]}"
+        one = {"list": "list[%s]", "seq": "typing.Sequence[%s]", "mseq": "typing.MutableSequence[%s]", "tup*": "tuple[%s, ...]",
+               "opt": "typing.Optional[%s]"}
+        if k in one:
+            return one[k] % self._ty_src(t[1])
+        two = {"dict": "dict[%s, %s]", "map": "typing.Mapping[%s, %s]", "mmap": "typing.MutableMapping[%s, %s]"}
+        if k in two:
+            return two[k] % (self._ty_src(t[1]), self._ty_src(t[2]))
+        raise Unrepresentable(t)
 
     # ------------------------------------------------------------------ values
     def val(self, o):
